@@ -633,6 +633,10 @@ def _fp_job(job):
             # the operation returns when run alone (just checked): the monitor was too slow on this machine right now
             notes.append("footprint of %s (%s) not taken: the traced run exceeded its time budget" % (okey(op), phase))
             continue
+        if conc.is_exc(res) and res[1] == "TimeoutError" and "did not return within" in str(res[2]):
+            # (the alarm went off inside the operation: it returns when run alone - just checked - the traced run was too slow)
+            notes.append("footprint of %s (%s) not taken: the traced run exceeded its time budget" % (okey(op), phase))
+            continue
         evs = [(k_, o_, n_, p_, (st["file"], st["line"], st["end_line"], st["func"]) if st else conc.tag_prev(changes[-1][0]))
                for k_, o_, n_, p_, st in conc.trace_events(changes, INV["idx"] or {})] if INV["idx"] is not None else []
         out.append((op, conc.canon(res), changes, nlines, scr, want, evs, sorted(cover)))
@@ -647,13 +651,19 @@ def footprint_jobs(ctx, datasets, rng, quick):
     for di, (spec, path) in enumerate(datasets):
         ops = fixed_ops(spec)
         ops += [gen_op(rng, spec) for _ in range(2 if quick else 6)]
-        for i in range(0, len(ops), 3):
-            jobs.append(mk(path, "fresh", ops[i:i + 3]))
+        fresh_ops = ops if (di == 0 or not quick) else [o for o in ops if o["op"] not in ("stats_fn", "meta", "filter_rgs") and o != {"op": "sorted_cols"}]
+        for i in range(0, len(fresh_ops), 3):
+            jobs.append(mk(path, "fresh", fresh_ops[i:i + 3]))
             owner.append(di)
-        wsel = (ops[1:3] + ops[3:4] + ops[8:10] + ops[11:14] + [o for o in ops if o["op"] in ("slice_stats", "schema_text", "sorted_cols", "stats_fn", "meta")] + ops[8:9]) if quick else ops
-        sels[di] = wsel
-        half = (len(wsel) + 1) // 2           # two warm handles per dataset (shorter critical path)
-        for part in (wsel[:half], wsel[half:]):
+        # two warm handles per dataset (shorter critical path).  The second one exercises the statistics family in an order
+        # that exposes aliasing between a handle, its cache and handles derived from it: statistics first (cache filled), then
+        # derived-handle statistics, the module-level functions with and without filters, statistics again
+        fam = [o for o in ops if o["op"] == "statistics"][:1] + \
+              [o for o in ops if o["op"] in ("slice_stats", "sorted_cols", "stats_fn", "meta", "schema_text")] + \
+              [o for o in ops if o["op"] == "statistics"][:1]
+        first = (ops[1:3] + ops[3:4] + ops[9:10] + ops[11:14]) if quick else [o for o in ops if o not in fam]
+        sels[di] = first + fam
+        for part in (first, fam):
             if part:
                 jobs.append(mk(path, "warm", part))
                 owner.append(di)
@@ -681,7 +691,7 @@ def footprint_premise(ctx, pq, datasets, jobs, results, state):
             if own != di or res_list is None:
                 continue
             phase = job["fp_phase"]
-            for op, got, changes, nlines, scr, want, evs, cover in res_list:
+            for ri, (op, got, changes, nlines, scr, want, evs, cover) in enumerate(res_list):
                 all_events.append((phase, op, evs))
                 for fl in cover:
                     covered.setdefault(tuple(fl), []).append((di, op, phase))
@@ -702,7 +712,7 @@ def footprint_premise(ctx, pq, datasets, jobs, results, state):
                 if got != want:
                     sel = job["ops"]
                     ctx.fail({"component": "shared-handle", "op": op["op"], "symptom": symptom(got), "mode": "sequential-" + phase},
-                             {"mode": "sequence", "dataset": spec, "ops": [o for o in sel[:sel.index(op) + 1]] if phase == "warm" else [op]},
+                             {"mode": "sequence", "dataset": spec, "ops": [r_[0] for r_ in res_list[:ri + 1]] if phase == "warm" else [op]},
                              "result on a %s handle differs from the solo result: %r vs %r" % (phase, got, want))
         # bounded input for the extracted checker: a trace is cut after its first destructive transition (as classified
         # in Python - the correspondence below compares exactly that index) and after 200 snapshots
@@ -923,6 +933,9 @@ class Clock:
 def forced_search(ctx, datasets, rng, quick, budget=None):
     per_ds = budget if budget is not None else (60 if quick else 600) // len(datasets)
     clock = Clock(ctx, "forced", 70 if quick else 1200)
+
+    def cp(*a_):
+        return False if clock.over() else check_pair(*a_)
     for spec, path, solo in datasets:
         pool = fixed_ops(spec) + [gen_op(rng, spec) for _ in range(6 if quick else 30)]
         wp = {}
@@ -949,11 +962,11 @@ def forced_search(ctx, datasets, rng, quick, budget=None):
             for k in ks:
                 if clock.over():
                     break
-                check_pair(ctx, spec, path, solo, [a, b], [[0, k, "writes"], [1, BIG, "lines"]], "after-write-%s" % ("0" if k == 0 else "k"), opc and k > 0)
+                cp(ctx, spec, path, solo, [a, b], [[0, k, "writes"], [1, BIG, "lines"]], "after-write-%s" % ("0" if k == 0 else "k"), opc and k > 0)
                 done += 1
                 if k > 0:
                     # read side of the discipline: the same operation (reader of the very keys a writes) right after a's k-th write
-                    check_pair(ctx, spec, path, solo, [a, a], [[0, k, "writes"], [1, BIG, "lines"]], "after-write-k-same-op", opc)
+                    cp(ctx, spec, path, solo, [a, a], [[0, k, "writes"], [1, BIG, "lines"]], "after-write-k-same-op", opc)
                     done += 1
             # both threads in the middle of their shared writes: a after its k-th write, a second writer until its j-th, a finishes
             if nw > 0:
@@ -961,12 +974,12 @@ def forced_search(ctx, datasets, rng, quick, budget=None):
                 nw2 = wp[okey(b2)][0] if okey(b2) in wp else nw
                 k = rng.randrange(1, nw + 1)
                 j = rng.randrange(1, max(1, nw2) + 1)
-                check_pair(ctx, spec, path, solo, [a, b2], [[0, k, "writes"], [1, j, "writes"], [0, BIG, "lines"], [1, BIG, "lines"]], "double-after-write", opc)
+                cp(ctx, spec, path, solo, [a, b2], [[0, k, "writes"], [1, j, "writes"], [0, BIG, "lines"], [1, BIG, "lines"]], "double-after-write", opc)
                 done += 1
             # a preemption at an arbitrary line (instruction) of a
             if nl > 2:
                 k = rng.randrange(1, nl * (4 if opc else 1))
-                check_pair(ctx, spec, path, solo, [a, b], [[0, k, "lines"], [1, BIG, "lines"]], "at-line", opc)
+                cp(ctx, spec, path, solo, [a, b], [[0, k, "lines"], [1, BIG, "lines"]], "at-line", opc)
                 done += 1
 
 
